@@ -39,6 +39,9 @@ typedef signed char i8; typedef short i16; typedef int i32; typedef long long i6
 #define SGN_u64 0
 
 /* fixed bases of the 32/64-bit groups: cell index CC_BI (split=CC_BI:0:3) -> base; base 2 has its own groups (longer unwinding) */
+#ifdef CC_B   /* split=CC_B:2:36: digits of 2^16-1 in base CC_B */
+#define CC_D16 (CC_B == 2 ? 16 : (CC_B == 3 ? 11 : (CC_B == 4 ? 8 : (CC_B <= 6 ? 7 : (CC_B <= 9 ? 6 : (CC_B <= 15 ? 5 : 4))))))
+#endif
 #ifdef CC_BI
 #define CC_BASE (CC_BI == 0 ? 8 : (CC_BI == 1 ? 10 : (CC_BI == 2 ? 16 : 36)))
 /* digits of 2^32-1 / 2^64-1 in that base */
@@ -284,44 +287,44 @@ void h_viol_to_string(void) { const int base = 10; VF_INPUT_BOOL(uns); unsigned 
 /* one cell per base 2..36 (split=CC_B:2:36): with a symbolic base the 16-bit division/multiplication relations need > 20 min per group,
  * with a constant base seconds per cell; the 35 cells together are the complete (type, every base) proof. */
 /*@GROUP name=to_chars_i16 props=C10,C02 kind=K unwind=20 tier=thorough timeout=600 cost=3 split=CC_B:2:36@*/
-void h_to_chars_i16(void) { const int base = CC_B; FMT_PRE(i16, 16, 16, 18);
+void h_to_chars_i16(void) { const int base = CC_B; FMT_PRE(i16, 16, CC_D16, CC_D16 + 2);
   VF_KNOWN(C10_format_store_before_length_check, v != 0 && (L == 0 || (L == 1 && v < 0 && base == 10)));
   VF_KNOWN(C10_to_chars_exact_fit_rejected, v != 0 && L == n);
   VF_KNOWN(C10_format_sign_only_base10, v < 0 && base != 10);
-  TO_CHARS_POST(i16, 16, 16); }
+  TO_CHARS_POST(i16, 16, CC_D16); }
 
 /*@GROUP name=to_chars_u16 props=C10,C02 kind=K unwind=20 tier=thorough timeout=600 cost=3 split=CC_B:2:36@*/
-void h_to_chars_u16(void) { const int base = CC_B; FMT_PRE(u16, 16, 16, 18);
+void h_to_chars_u16(void) { const int base = CC_B; FMT_PRE(u16, 16, CC_D16, CC_D16 + 2);
   VF_KNOWN(C10_format_store_before_length_check, v != 0 && L == 0);
   VF_KNOWN(C10_to_chars_exact_fit_rejected, v != 0 && L == n);
-  TO_CHARS_POST(u16, 16, 16); }
+  TO_CHARS_POST(u16, 16, CC_D16); }
 
 /*@GROUP name=from_integer_i16 props=C10,C02 kind=K unwind=20 tier=thorough timeout=600 cost=3 split=CC_B:2:36@*/
-void h_from_integer_i16(void) { const int base = CC_B; FMT_PRE(i16, 16, 16, 18);
+void h_from_integer_i16(void) { const int base = CC_B; FMT_PRE(i16, 16, CC_D16, CC_D16 + 2);
   VF_KNOWN(C10_format_store_before_length_check, v != 0 && (L == 0 || (L == 1 && v < 0 && base == 10)));
   VF_KNOWN(C10_format_sign_only_base10, v < 0 && base != 10);
-  FROM_INTEGER_POST(i16, 16, 16); }
+  FROM_INTEGER_POST(i16, 16, CC_D16); }
 
 /*@GROUP name=from_integer_u16 props=C10,C02 kind=K unwind=20 tier=thorough timeout=600 cost=3 split=CC_B:2:36@*/
-void h_from_integer_u16(void) { const int base = CC_B; FMT_PRE(u16, 16, 16, 18);
+void h_from_integer_u16(void) { const int base = CC_B; FMT_PRE(u16, 16, CC_D16, CC_D16 + 2);
   VF_KNOWN(C10_format_store_before_length_check, v != 0 && L == 0);
-  FROM_INTEGER_POST(u16, 16, 16); }
+  FROM_INTEGER_POST(u16, 16, CC_D16); }
 
 /*@GROUP name=from_chars_i16 props=C10,C02 kind=K unwind=22 tier=thorough timeout=600 cost=3 split=CC_B:2:36@*/
-void h_from_chars_i16(void) { const int base = CC_B; RANGE_IN(19); FROM_CHARS_PRE(i16, 16, 19);
+void h_from_chars_i16(void) { const int base = CC_B; RANGE_IN(CC_D16 + 3); FROM_CHARS_PRE(i16, 16, CC_D16 + 3);
   VF_KNOWN(C10_from_chars_out_of_range_ptr, r.cls == 2);
   FROM_CHARS_POST(i16); }
 
 /*@GROUP name=from_chars_u16 props=C10,C02 kind=K unwind=22 tier=thorough timeout=600 cost=3 split=CC_B:2:36@*/
-void h_from_chars_u16(void) { const int base = CC_B; RANGE_IN(19); FROM_CHARS_PRE(u16, 16, 19);
+void h_from_chars_u16(void) { const int base = CC_B; RANGE_IN(CC_D16 + 3); FROM_CHARS_PRE(u16, 16, CC_D16 + 3);
   VF_KNOWN(C10_from_chars_out_of_range_ptr, r.cls == 2);
   FROM_CHARS_POST(u16); }
 
 /*@GROUP name=to_integer_i16 props=C10,C02 kind=K unwind=22 tier=thorough timeout=600 cost=3 split=CC_B:2:36@*/
-void h_to_integer_i16(void) { const int base = CC_B; RANGE_IN(19); TO_INTEGER_PRE(i16, 16, 19); TO_INTEGER_POST(i16); }
+void h_to_integer_i16(void) { const int base = CC_B; RANGE_IN(CC_D16 + 3); TO_INTEGER_PRE(i16, 16, CC_D16 + 3); TO_INTEGER_POST(i16); }
 
 /*@GROUP name=to_integer_u16 props=C10,C02 kind=K unwind=22 tier=thorough timeout=600 cost=3 split=CC_B:2:36@*/
-void h_to_integer_u16(void) { const int base = CC_B; RANGE_IN(19); TO_INTEGER_PRE(u16, 16, 19); TO_INTEGER_POST(u16); }
+void h_to_integer_u16(void) { const int base = CC_B; RANGE_IN(CC_D16 + 3); TO_INTEGER_PRE(u16, 16, CC_D16 + 3); TO_INTEGER_POST(u16); }
 
 /*@GROUP name=roundtrip_i16 props=C10,C02 kind=K unwind=21 tier=thorough timeout=600 cost=3 split=CC_B:2:36@*/
 void h_roundtrip_i16(void) { const int base = CC_B; ROUNDTRIP_PRE(i16, 16);
@@ -483,3 +486,8 @@ void h_stoul(void) { const int base = CC_BASE; VF_INPUT_BOOL(ll); RANGE_IN(CC_D6
   VF_KNOWN(C10_parse_unsigned_minus_rejected, r.minus);
   if (ll) STO_POST(s_stoull, unsigned long long) else STO_POST(s_stoul, unsigned long)
   VF_REACH(); }
+
+/*@GROUP name=x_fc16 props=C10,C02 kind=K unwind=22 tier=thorough timeout=600 cost=3 split=CC_B:7:10@*/
+void h_x_fc16(void) { const int base = CC_B; RANGE_IN(CC_D16 + 3); FROM_CHARS_PRE(i16, 16, CC_D16 + 3);
+  VF_KNOWN(C10_from_chars_out_of_range_ptr, r.cls == 2);
+  FROM_CHARS_POST(i16); }
